@@ -262,10 +262,11 @@ class LineAnalyser:
         mid_total = sum(self.freq['mid'].values())
         end_total = sum(self.freq['end'].values())
         for token_type, all_freq in self.freq['all'].most_common():
+            # a corpus of short lines has no mid (or end) tokens at all: their fraction is 0
             self.frac['all'][token_type] = self.freq['all'][token_type] / all_total
-            self.frac['start'][token_type] = self.freq['start'][token_type] / start_total
-            self.frac['mid'][token_type] = self.freq['mid'][token_type] / mid_total
-            self.frac['end'][token_type] = self.freq['end'][token_type] / end_total
+            self.frac['start'][token_type] = self.freq['start'][token_type] / start_total if start_total else 0.0
+            self.frac['mid'][token_type] = self.freq['mid'][token_type] / mid_total if mid_total else 0.0
+            self.frac['end'][token_type] = self.freq['end'][token_type] / end_total if end_total else 0.0
         self.stats['total_lines'] = self.num_lines
 
     def _iter_lines(self, text_lines: Iterable[any]):
